@@ -104,6 +104,11 @@ type runStats struct {
 	unknown                                                                    int
 	steps                                                                      int64
 	maxDepth                                                                   int
+	// schedule mode
+	schedPaths  int    // paths run in schedule mode
+	schedEvents int64  // visible operations recorded on them
+	schedByDev  [4]int // paths by number of deviations from the default schedule (3 = 3 or more)
+	schedBound  int    // largest deviation bound a harness asked for
 }
 
 func (sh *Shared) coverSeen(l string) bool {
@@ -325,6 +330,18 @@ func (w *Worker) runPath(fn *ssa.Function, prefix []int64) (alts [][]int64) {
 	st.steps += int64(ex.steps)
 	if len(ex.decisions) > st.maxDepth {
 		st.maxDepth = len(ex.decisions)
+	}
+	if ex.schedOn {
+		st.schedPaths++
+		st.schedEvents += int64(len(ex.schedTrace))
+		d := ex.schedDev
+		if d > 3 {
+			d = 3
+		}
+		st.schedByDev[d]++
+		if ex.schedMax > st.schedBound {
+			st.schedBound = ex.schedMax
+		}
 	}
 	switch outcome {
 	case "done":
